@@ -192,6 +192,7 @@ impl Manager {
         }
     }
     /// Retrieves the number of current connections.
+    /// Every listener that is still accepting counts as one.
     /// Returns `0` if the feature `graceful-shutdown is disabled`.
     #[must_use]
     pub fn get_connecions(&self) -> isize {
